@@ -138,7 +138,7 @@ def run(ctx):
         elif h.get("crashed"):
             ctx.violation("crash:%s@%s" % (name, h["listener"]), {"kind": "hostile", "name": name}, True,
                           "proxy process died on hostile stream %s (%s listener): %s" % (name, h["listener"], h.get("exit_text", "")[:300]))
-        elif h.get("listener") == "origin" and h.get("verdict") == "malformed":
+        elif h.get("listener") in ("origin", "bodylog") and h.get("verdict") == "malformed":
             ctx.violation("malformed-relay:%s" % name, {"kind": "hostile", "name": name}, True,
                           "hostile origin reply %s: the client received bytes that are not a well-formed HTTP response: %r" % (name, h.get("reply", "")[:120]))
         elif h.get("want") and h.get("status") != h["want"]:
